@@ -149,7 +149,7 @@ class Run:
         return self.lend["per_symbol"].get(symbol, self.lend["default"])
 
     # ------------------------------------------------------------------------------------
-    def build(self):
+    async def build(self):
         from basana.core import dispatcher, event, bar
         from basana.core.pair import Pair, PairInfo
         from basana.backtesting import exchange, liquidity, lending, fees
@@ -179,7 +179,21 @@ class Run:
                     ls.set_conditions(s, mk(c))
             self.ls = ls
             kw["lending_strategy"] = ls
+        if self.sc.get("base_fee_pct"):
+            # a custom fee scheme (public FeeStrategy interface) charging buys in the asset they receive
+            pct = D(self.sc["base_fee_pct"])
+
+            class BaseAssetFee(fees.FeeStrategy):
+                def calculate_fees(self, order, balance_updates):
+                    b = order.pair.base_symbol
+                    amt = balance_updates.get(b, D(0))
+                    return {b: -(amt * pct / 100)} if amt > 0 else {}
+            kw["fee_strategy"] = BaseAssetFee()
         self.e = exchange.Exchange(self.d, dict(self.init), **kw)
+        if self.sc.get("early_lookup"):
+            # the application asks for pair information before it configures the precisions
+            for b_, q_ in sc["pairs"]:
+                await self.e.get_pair_info(Pair(b_, q_))
         for s, p in self.symbols.items():
             self.e.set_symbol_precision(s, p)
         self.pairs: Dict[str, Any] = {}
@@ -210,7 +224,7 @@ class Run:
         lg = logging.getLogger("basana")
         lg.addHandler(cap)
         try:
-            self.build()
+            await self.build()
             await self.snapshot(("init",))
             await self.d.run(stop_signals=[])
             await self.snapshot(("end",))
@@ -272,6 +286,17 @@ class Run:
                 lid = self._pick_loan(act)
                 if lid is not None:
                     await self.call("repay_loan", lambda: e.repay_loan(lid), {"id": lid})
+            elif op == "refine_base":
+                # the base symbol's precision is made finer while the backtest runs (amounts on the old grid stay valid)
+                from basana.core.pair import PairInfo
+                sym, newp = act["symbol"], act["precision"]
+                if newp > self.symbols[sym]:
+                    self.symbols = dict(self.symbols, **{sym: newp})
+                    self.e.set_symbol_precision(sym, newp)
+                    for i, (b_, q_) in enumerate(self.sc["pairs"]):
+                        if i in self.sc.get("explicit_pair_info", []) and sym in (b_, q_):
+                            self.e.set_pair_info(self.pairs[f"{b_}/{q_}"], PairInfo(self.symbols[b_], self.symbols[q_]))
+                    self.stats["precision_refined"] += 1
             elif op == "set_cond":
                 # the lending conditions of a symbol are changed while the backtest runs (public MarginLoans API)
                 import copy as _copy
@@ -826,9 +851,10 @@ class Run:
                 self.v("C04", "better_than_reference", tag, mechanism=mech)
             if oi.amount_filled != oi.amount:
                 self.v("C05", "partial_fill_of_market_or_stop", tag)
-        # C08 grid of the fill itself
-        if db != q(db, bp, decimal.ROUND_DOWN) or dq != q(dq, qp, decimal.ROUND_DOWN) or df != q(df, qp, decimal.ROUND_DOWN):
-            self.v("C08", "fill_off_grid", f"{tag} fee {df}: not multiples of 1e-{bp} / 1e-{qp}")
+        # C08 grid of the fill itself (fees per symbol, each on its own symbol's grid)
+        fees_ok = all(val == q(val, self.symbols.get(sym, qp), decimal.ROUND_DOWN) for sym, val in oi.fees.items())
+        if db != q(db, bp, decimal.ROUND_DOWN) or dq != q(dq, qp, decimal.ROUND_DOWN) or not fees_ok:
+            self.v("C08", "fill_off_grid", f"{tag} fees {oi.fees}: not multiples of 1e-{bp} / 1e-{qp}")
         self.sig.add(("fill", kind, m["side"], "partial" if oi.amount_filled < oi.amount else "full",
                       "at_open" if dq == q(o_ * db, qp) else "at_limit" if m["limit"] is not None and dq == q(m["limit"] * db, qp)
                       else "other"))
